@@ -17,7 +17,7 @@ package standard
 //@
 //@ func (*Service).BlockRootToSlot
 //@   requires s != nil && s.blockRootToSlot != nil && s.beaconBlockHeadersProvider != nil
-//@   requires unheld(s.blockRootToSlotMu)
+//@   requires nolocks()
 //@   assumes call BeaconBlockHeader#1 (resp, err): err == nil ==> resp != nil && resp.Data != nil && resp.Data.Header != nil && resp.Data.Header.Message != nil && resp.Data.Header.Message.Slot == headerSlot(root)
 //@   ensures result1 == nil ==> result0 == (in(old(s.blockRootToSlot), root) ? old(s.blockRootToSlot)[root] : headerSlot(root))
 //@   ensures result1 == nil ==> in(s.blockRootToSlot, root) && s.blockRootToSlot[root] == result0
@@ -27,13 +27,13 @@ package standard
 //@   modifies contents(s.blockRootToSlot)
 //@
 //@ func (*Service).SetBlockRootToSlot
-//@   requires s != nil && s.blockRootToSlot != nil && unheld(s.blockRootToSlotMu)
+//@   requires s != nil && s.blockRootToSlot != nil && nolocks()
 //@   ensures in(s.blockRootToSlot, root) && s.blockRootToSlot[root] == slot
 //@   ensures forall r phase0.Root :: r != root ==> (in(s.blockRootToSlot, r) <==> in(old(s.blockRootToSlot), r)) && s.blockRootToSlot[r] == old(s.blockRootToSlot[r])
 //@   modifies contents(s.blockRootToSlot)
 //@
 //@ func (*Service).cleanBlockRootToSlot
-//@   requires s != nil && s.chainTime != nil && unheld(s.blockRootToSlotMu)
+//@   requires s != nil && s.chainTime != nil && nolocks()
 //@   assumes call CurrentEpoch (e): e == epochNow()
 //@   assumes call FirstSlotOfEpoch (fs): fs == firstSlotOf(arg0)
 //@   loop 1
@@ -54,13 +54,13 @@ package standard
 //@   // assumed of go-eth2-client's event stream: the handler gets a non-nil event whose data, if any, is the non-nil
 //@   // event structure of the subscribed topic
 //@   requires event != nil && (!isnil(event.Data) ==> hastype(event.Data, "*apiv1.BlockEvent") && unbox(event.Data, "*apiv1.BlockEvent") != nil)
-//@   requires unheld(s.blockRootToSlotMu)
+//@   requires nolocks()
 //@
 //@ func (*Service).handleHead
 //@   requires event != nil && (!isnil(event.Data) ==> hastype(event.Data, "*apiv1.HeadEvent") && unbox(event.Data, "*apiv1.HeadEvent") != nil)
-//@   requires unheld(s.executionChainHeadMu)
+//@   requires nolocks()
 //@   assumes call SignedBeaconBlock#1 (resp, err): err == nil ==> resp != nil && resp.Data != nil && blockPresent(resp.Data)
 //@
 //@ func (*Service).updateExecutionHeadFromBlock
 //@   requires block != nil && blockPresent(block)
-//@   requires unheld(s.executionChainHeadMu)
+//@   requires nolocks()
